@@ -592,8 +592,14 @@ func VH_overflow(n int, lead int) {
 		sym(1)
 		sym(2)
 	default:
+		// leading zeros in either script (a choice for the first two and the last one; the rest
+		// alternate: 2^k combinations of k zeros would only multiply identical paths)
 		for i := 0; i < n-308; i++ {
-			if verifChoice(2) == 1 {
+			if i < 2 || i == n-309 {
+				if verifChoice(2) == 1 {
+					src[i] = 0x9E6
+				}
+			} else if i%2 == 1 {
 				src[i] = 0x9E6
 			}
 		}
@@ -617,6 +623,16 @@ func VH_overflow(n int, lead int) {
 	}
 	if err != nil {
 		verifAssert("literal-out-of-range-is-rejected", len(s.tokens) == 0 && utils.HadError)
+		// … every time the text is scanned in this process (a REPL scans line after line), and in
+		// the other digit script too
+		utils.HadError = false
+		s2 := NewScanner(src)
+		s2.scanToken()
+		verifAssert("literal-out-of-range-is-rejected-again", len(s2.tokens) == 0 && utils.HadError)
+		utils.HadError = false
+		s3 := NewScanner(ascii)
+		s3.scanToken()
+		verifAssert("literal-out-of-range-is-rejected-again", len(s3.tokens) == 0 && utils.HadError)
 		return
 	}
 	verifAssert("literal-in-range-is-a-token", len(s.tokens) == 1 && !utils.HadError)
